@@ -325,8 +325,25 @@ func C08(c *vlib.Ctx) {
 					}
 					nonce++
 					signMethod, signTarget, signBody := q.Method, q.Target, q.Body
-					m := r.Intn(26)
+					m := r.Intn(28)
+					crossNow := time.Time{}
 					switch {
+					case m == 26 && ver != nil && rt.Tolerance >= 2*time.Second:
+						// the secret is valid on the gateway clock but was not yet valid at the
+						// signed instant (inside the tolerance): not authentic
+						mut = "secret_valid_now_not_at_ts"
+						tsAt = ver.From.Add(-time.Second)
+						crossNow = ver.From.Add(rt.Tolerance - 2*time.Second)
+						if ver.HasUntil && !crossNow.Before(ver.Until) {
+							crossNow = ver.From
+						}
+					case m == 27 && ver != nil && ver.HasUntil && rt.Tolerance >= 2*time.Second && ver.Until.Add(-time.Second).After(ver.From):
+						// valid at the signed instant, no longer valid on the gateway clock: authentic
+						mut = "secret_valid_at_ts_not_now"
+						tsAt = ver.Until.Add(-time.Second)
+						crossNow = ver.Until.Add(rt.Tolerance - 2*time.Second)
+					case m >= 26:
+						m = 25
 					case m == 0:
 						mut, secret = "wrong_secret", secret+"x"
 					case m == 1 && ver != nil:
@@ -362,6 +379,9 @@ func C08(c *vlib.Ctx) {
 						case "ts_inside_tolerance":
 							tsAt = now.Add(-(rt.Tolerance - time.Second))
 						}
+					}
+					if !crossNow.IsZero() {
+						now = crossNow
 					}
 					clock.Set(now)
 					tsStr := strconv.FormatInt(tsAt.Unix(), 10)
